@@ -72,8 +72,13 @@ def one_trace(rng, tid, prop):
             q, s, t, qlow, qup = index_params(rng)
             g, r = rng.random() < 0.5, rng.random() < 0.5
             q["graded"], q["reverse"] = g, r
+            dim_names = []
+            if fam == "monomial" and "dimensions" in q and isinstance(q["dimensions"], int) and rng.random() < 0.4:
+                # `dimensions` given as the names themselves instead of their number
+                dim_names = sorted(rng.sample([0, 1, 2, 3, 5, 10], q["dimensions"]))
+                q["dim_names"] = dim_names
             rec.do("index", [], keep=False, fn=fam, p=q, start=s, stop=t, qlow=qlow, qup=qup,
-                   graded=g, reverse=r, inverse=False)
+                   graded=g, reverse=r, inverse=False, dim_names=dim_names)
         elif fam == "bindex":
             q, s, t, qlow, qup = index_params(rng)
             ordering = "".join(c for c in "GRI" if rng.random() < 0.5)
